@@ -1,6 +1,6 @@
 From Coq Require Import Extraction ExtrOcamlBasic ZArith.
 From V Require Import lib.Words lib.PMap spec.RfcTables spec.PrefixCode spec.Decoder model.EncConfig model.RingBuf
-  model.MetaBlockHeader model.Stream proofs.Stored_proofs.
+  model.MetaBlockHeader model.Stream.
 Extraction Language OCaml.
 Extraction "../build/ocaml/c01/model.ml"
   decode ngetd context_id apply_transform rfc_lut0 rfc_lut1 rfc_lut2 dist_limit dist_alphabet Z.of_N
